@@ -16,7 +16,8 @@ RUNS = {"quick": 3000, "thorough": 90000}
 WALL_CAP = {"quick": 150, "thorough": 3000}
 RULE = ("one case = one generated handler program (2-6 event names, 3-10 handler callables with scripts that "
         "post/post_boolean/post_relay with or without completion callback, add/replace/remove handlers by "
-        "key/event/method, defer a post through a delay, flip a switch, return False/dict; priorities distinct, "
+        "key/event/method, defer a post through a delay, add/reset/remove/run_now a named delay whose callback "
+        "posts, flip a switch, return False/dict; priorities distinct, "
         "tied or flat; registered kwargs colliding with posted ones; conditions) run in 1-3 episodes on one booted "
         "machine (registration history carries over), each with a random registration history and 3-12 roots posted "
         "from MPF's boot sequence, the driver, a plain loop timer, a DelayManager callback, an untimed/timed switch "
@@ -31,7 +32,9 @@ PROBES = ["delivery", "callback", "episode_boundary", "root_from_boot", "root_fr
           "relay_merge", "kw_override", "bare_post", "callback_after_grandchildren", "callback_no_handlers",
           "add_during_own_dispatch", "r2_removed_before_turn", "r2_removed_still_called",
           "r3_add_while_waiting", "r3_remove_while_waiting", "post_then_add_in_handler",
-          "sibling_before_waiting", "rm_method_multi_event", "replace_hit"]
+          "sibling_before_waiting", "rm_method_multi_event", "replace_hit", "run_now_in_handler",
+          "run_now_in_nested_event", "run_now_outside_handler", "post_in_run_now", "named_delay_replaced",
+          "named_delay_removed"]
 REAL = ["mpf.core.events.EventManager (add/replace/remove handlers, post/post_boolean/post_relay/post_queue, "
         "process_event_queue)", "mpf.core.delays.DelayManager", "mpf.core.switch_controller.SwitchController "
         "(untimed + timed handlers)", "mpf.core.placeholder_manager (handler conditions)", "MachineController boot"]
@@ -49,6 +52,7 @@ EVENTS = ["e0", "e1", "e2", "e3", "e4", "e5"]
 CONDS = [[["c", "==", 1]], [["c", ">", 0]], [["c", "!=", 1]], [["a", "==", 1]],
          [["c", "==", 1], ["d", "==", 0]], [["d", "<", 2]]]
 RETS = [(None, 7), (False, 1.6), (True, 0.4), ({"a": 7}, 0.8), ({"c": 1}, 0.6), ({"d": 5, "b": 9}, 0.5)]
+DELAY_NAMES = ["d0", "d1"]
 T0 = 1.0
 STEP = 0.125
 MAX_POSTS = 48
@@ -117,17 +121,26 @@ def _gen_add(g, where):
     return op
 
 
+def _gen_dadd(g, name=None):
+    """A named delay on the machine-wide DelayManager whose callback posts events (run_now target)."""
+    ch = g.ch
+    return {"op": "dadd", "name": name or ch.pick("dname", DELAY_NAMES), "ms": ch.pick("dnms", [250, 500, 1000, 125]),
+            "reset": ch.flag("dreset", 0.3),
+            "script": [_gen_post(g, "root") for _ in range(1 + ch.choice("ndl", 2))]}
+
+
 def _gen_op(g, where, depth=0):
     ch = g.ch
     if where == "h":
         w = [("post", 6), ("add", 1.5), ("rm_key", 1.2), ("rm_event", 0.6), ("rm_method", 0.5), ("replace", 0.4),
-             ("flip", 0.3), ("defer", 0.4)]
+             ("flip", 0.3), ("defer", 0.4), ("dadd", 0.8), ("drun", 0.9), ("drm", 0.2)]
     elif where == "cb":
-        w = [("post", 4), ("add", 1), ("rm_key", 1), ("rm_method", 0.3), ("defer", 0.3)]
+        w = [("post", 4), ("add", 1), ("rm_key", 1), ("rm_method", 0.3), ("defer", 0.3), ("dadd", 0.3), ("drun", 0.3)]
     elif where == "setup":
         w = [("add", 7), ("rm_key", 1.5), ("rm_event", 0.5), ("rm_method", 0.5), ("replace", 0.6)]
     else:   # root contexts
-        w = [("post", 8), ("add", 1), ("rm_key", 0.7), ("rm_method", 0.3), ("rm_event", 0.2), ("defer", 0.3)]
+        w = [("post", 8), ("add", 1), ("rm_key", 0.7), ("rm_method", 0.3), ("rm_event", 0.2), ("defer", 0.3),
+             ("dadd", 0.8), ("drun", 0.2), ("drm", 0.1)]
     kind = ch.weighted("op." + where, w)
     if kind == "post":
         return _gen_post(g, where)
@@ -147,6 +160,12 @@ def _gen_op(g, where, depth=0):
         return {"op": "replace", "event": ch.pick("xevent", g.events), "hid": ch.pick("xhid", g.hids),
                 "prio": _prio(g), "kw": {} if ch.flag("xnokw", 0.5) else _kw(ch, "xkw", ["a", "b", "h"], 2, 3),
                 "once": True, "oid": g.next_oid()}
+    if kind == "dadd":
+        return _gen_dadd(g)
+    if kind == "drun":
+        return {"op": "drun", "name": ch.pick("dname", DELAY_NAMES)}
+    if kind == "drm":
+        return {"op": "drm", "name": ch.pick("dname", DELAY_NAMES)}
     if kind == "defer":
         return {"op": "defer", "ms": ch.pick("dms", [0, 0, 125, 250]),
                 "script": [_gen_post(g, "root") for _ in range(1 + ch.choice("ndefer", 2))]}
@@ -170,7 +189,13 @@ def plan(ch, tier):
     handlers = {}
     for hid in g.hids:
         n = ch.weighted("hn", [(0, 4), (1, 3), (2, 2), (3, 1)])
-        handlers[hid] = {"script": [_gen_op(g, "h") for _ in range(n)], "ret": ch.weighted("ret", RETS)}
+        script = [_gen_op(g, "h") for _ in range(n)]
+        if ch.flag("dpair", 0.15):
+            # the same handler adds a named delay and runs it right away (what mpf's bonus mode does)
+            nm = ch.pick("dpair.name", DELAY_NAMES)
+            script.insert(ch.choice("dpair.pos", len(script) + 1), _gen_dadd(g, nm))
+            script.append({"op": "drun", "name": nm})
+        handlers[hid] = {"script": script, "ret": ch.weighted("ret", RETS)}
     ops = []
     # 1-3 episodes on one booted machine: the registry history carries over, the post/invocation budgets are
     # reset at the episode boundary (a driver op that first waits for the loop to go idle)
@@ -265,7 +290,7 @@ def execute(ctx, plan):
     model = BusModel(ctx.violation, ctx.probe)
     handlers = plan["handlers"]
     cbs = plan["cbs"]
-    st = {"posts": 0, "invoc": 0, "where": ("boot",), "once": set(), "defers": 0, "reg_base": 0}
+    st = {"posts": 0, "invoc": 0, "where": ("boot",), "once": set(), "defers": 0, "reg_base": 0, "run_now": 0}
     sw_scripts = {"s_a": [], "s_b": [], "s_c": []}
     tasks = []
 
@@ -412,7 +437,7 @@ def execute(ctx, plan):
         assert post.pid == pid
         ctx.log("post", pid, ev, op["type"], sorted(kw.items()), has_cb, st["where"][0], t=loop.time())
         if model.in_handler():
-            ctx.probe("post_in_nested_switch" if where == "sw" else "post_in_handler")
+            ctx.probe({"sw": "post_in_nested_switch", "dl": "post_in_run_now"}.get(where, "post_in_handler"))
         elif where == "cb":
             ctx.probe("post_in_callback")
         else:
@@ -507,6 +532,32 @@ def execute(ctx, plan):
             ctx.log("rm_method", op["hid"], st["where"][0], t=loop.time())
             model.remove_method(op["hid"])
             events.remove_handler(Callable(op["hid"], None))
+        elif k == "dadd":
+            if st["defers"] >= 20:
+                return
+            st["defers"] += 1
+            ctx.log("dadd", op["name"], op["ms"], op["reset"], st["where"][0], t=loop.time())
+            if m.delay.check(op["name"]):
+                ctx.probe("named_delay_replaced")
+            fn = m.delay.reset if op["reset"] else m.delay.add
+            fn(op["ms"], _mk(named_delay_fired, op["name"], op["script"]), op["name"])
+        elif k == "drun":
+            pending = m.delay.check(op["name"])
+            ctx.log("drun", op["name"], bool(pending), st["where"][0], t=loop.time())
+            if pending:
+                ctx.probe("run_now_in_handler" if model.in_handler() else "run_now_outside_handler")
+                if model.in_handler() and model.cur is not None and model.cur.post.depth >= 1:
+                    ctx.probe("run_now_in_nested_event")
+            st["run_now"] += 1
+            try:
+                m.delay.run_now(op["name"])
+            finally:
+                st["run_now"] -= 1
+        elif k == "drm":
+            ctx.log("drm", op["name"], st["where"][0], t=loop.time())
+            if m.delay.check(op["name"]):
+                ctx.probe("named_delay_removed")
+            m.delay.remove(op["name"])
         elif k == "defer":
             if st["defers"] >= 20:
                 return
@@ -519,6 +570,18 @@ def execute(ctx, plan):
             sc.process_switch("s_a", 1 - sw.state, logical=True)
         else:
             raise AssertionError(k)
+
+    def named_delay_fired(name, script):
+        """Callback of a named delay.  Expired: a posting context of its own.  Through run_now(): it runs
+        synchronously inside the caller, i.e. it is part of the calling handler/callback/context, and what it
+        posts is posted by that caller."""
+        if st["run_now"]:
+            ctx.log("run_now_cb", name, model.in_handler(), t=loop.time())
+            run_script(script, "dl" if model.in_handler() else ("cb" if st["where"][0] == "cb" else "root"))
+            return
+        enter("delay", name)
+        run_script(script, "root")
+        st["where"] = ("loop",)
 
     def deferred(script):
         enter("delay", "deferred")
